@@ -20,6 +20,19 @@ CLAIMED = {
  "C12": ("model_checking", "explicit-state BFS of the real scanner at token level (state = VerifState) with a well-formedness oracle on every explored string, plus exhaustive model x layout exactness against the renderer's position map",
          "Token strings are explored breadth-first and deduplicated on the real scanner's control state; every (state, token) string is scanned to EOF and its lexeme stream checked (inside file, ordered, non-overlapping, per-directive shape). For every generated document x layout the lexeme stream must equal the position map byte for byte.",
          "Dedup key soundness: VerifState holds everything step functions read besides the input; prefixes whose state cannot be read cleanly are kept as separate states. The extent of schema/enum bodies is decided by jsight-schema-core (trailing blanks/comments may be swallowed, nothing else)."),
+
+ "C04": ("exploration", "bounded exhaustive enumeration of accepted inputs (models x layouts, corpus, all single-line corpus mutants, directive-instance sequences) with a JDoc shape validator",
+         "Every accepted member of the enumerated input families is serialised with ToJson and ToJsonIndent; both must succeed, be valid UTF-8 JSON, agree up to white space and satisfy the JDoc Exchange 2.0.0 shape validator.",
+         "Trusts internal/ref/jdoc.go as the statement of the JDoc 2.0.0 shape; inputs outside the families are not covered."),
+ "C05": ("exploration", "bounded exhaustive enumeration of accepted inputs with a cross-reference closure validator on the serialised catalog",
+         "Every accepted valid-UTF-8 member of the same families: interaction key/id/fields agree, tag <-> interaction relation is exact (exactly once, right protocol, both directions), used type/enum names are defined, pathVariables equal the path's parameters, response codes 100-599 with bodies, JSight version 0.3.",
+         "Trusts internal/ref/jdoc.go (ValidateCrossRefs)."),
+ "C16": ("model_checking", "exhaustive enumeration of call histories over the five accessors up to a length bound, each on a fresh build, compared with the single-call result",
+         "For every project (hand-written projects exercising each lazily built piece + every accepted corpus file) every call sequence up to the bound is executed on a fresh build; every call must return what the same accessor returns as the only call on a fresh build.",
+         "Histories longer than the bound and projects outside the set are not covered; panics inside an accessor are compared as results."),
+ "C17": ("exploration", "bounded exhaustive enumeration of accepted inputs with an OpenAPI 3.0.3 structural validator; panics caught per case",
+         "Every accepted member of the families is exported with ToOpenAPIJson/ToOpenAPIJsonIndent: no panic; either an error or a document in which every HTTP interaction is paths[path][method], every {parameter} is a required path parameter, every $ref resolves, every user type is a component and response keys are status codes.",
+         "Trusts internal/ref/oas.go; an error return is accepted as the property allows."),
 }
 
 NOT_YET = {}
